@@ -27,6 +27,18 @@ func (fx *FnExec) doCall(st *State, in *ssa.Call, k cont, depth int) {
 		}
 		return args
 	}
+	if fx.fc != nil && len(fx.fc.CallGhosts) > 0 && in.Parent() == fx.fn {
+		k0 := k
+		var rcv *Val
+		if c.IsInvoke() {
+			r := fx.val(st, c.Value)
+			rcv = &r
+		}
+		k = func(s *State, res []Val) {
+			fx.callGhosts(s, in, rcv, res)
+			k0(s, res)
+		}
+	}
 	if c.IsInvoke() {
 		recv := fx.val(st, c.Value)
 		fx.invoke(st, in, recv, c.Method, argv(), k, depth)
@@ -155,7 +167,7 @@ func (fx *FnExec) builtin(st *State, in *ssa.Call, b *ssa.Builtin, k cont) {
 
 func (fx *FnExec) callFunc(st *State, in *ssa.Call, fn *ssa.Function, args []Val, cl *Closure, k cont, depth int) {
 	eng := fx.eng
-	if len(fn.Blocks) == 0 || fn.Pkg == nil && fn.Parent() == nil || !eng.ours(fn) {
+	if len(fn.Blocks) == 0 || fn.Pkg == nil && fn.Parent() == nil || !eng.ours(fn) || (fn.Name() == "init" && fn.Synthetic != "" && fn.Pkg != fx.fn.Pkg) {
 		fx.extern(st, in, fn, args, k)
 		return
 	}
@@ -375,6 +387,9 @@ func (fx *FnExec) applyContract(st *State, in *ssa.Call, fn *ssa.Function, fc *F
 			st.assume(f)
 		}
 	}
+	if touch["ghost:exitcode"] {
+		fx.afterMayExit(st)
+	}
 	k(st, res)
 }
 
@@ -472,7 +487,11 @@ func (eng *Engine) touchBlock(b *ssa.BasicBlock, t map[string]bool) {
 					t[mapDom(mt)], t[mapVal(mt)], t[mapLen] = true, true, true
 				}
 			case *ssa.Function:
+				toStderr := strings.HasPrefix(callee.String(), "fmt.Fprint") && len(c.Args) > 0 && isGlobalLoad(c.Args[0], "os", "Stderr")
 				for k := range eng.touchFunc(callee) {
+					if toStderr && (k == "ghost:outn" || k == "ghost:outl") {
+						continue // a write to standard error is not a write to standard output
+					}
 					t[k] = true
 				}
 			case *ssa.MakeClosure:
@@ -534,6 +553,7 @@ func (eng *Engine) invokeTouch(c *ssa.CallCommon, t map[string]bool) {
 }
 
 func (eng *Engine) externTouch(fn *ssa.Function, t map[string]bool) {
+	eng.procTouch(fn, t)
 	switch fn.String() {
 	case "crypto/rand.Read":
 		t["ghost:pos"] = true
@@ -549,7 +569,7 @@ func (eng *Engine) externTouch(fn *ssa.Function, t map[string]bool) {
 			eng.regSet()
 			t[setHeap] = true
 		}
-	case "fmt.Printf", "fmt.Println", "fmt.Fprintf", "log.Println", "log.Printf":
+	case "log.Println", "log.Printf":
 		t["ghost:emitted"] = true
 	case "io/ioutil.ReadFile", "os.ReadFile":
 		t["@alloc"] = true
